@@ -3,7 +3,7 @@
 
 import random
 import uuid
-from collections.abc import Iterable
+from collections.abc import Iterable, Sequence
 from typing import Any
 from uuid import UUID
 
@@ -808,8 +808,11 @@ with PolarsImpl.impl_store.impl_manager as impl:
         return x.log10()
 
     @impl(ops.clip)
-    def _clip(x, lower, upper):
-        return x.clip(lower, upper)
+    def _clip(x, lower, upper, *, _sig: Sequence[Dtype]):
+        if _sig[0].is_int() or _sig[0].is_float():
+            return x.clip(lower, upper)
+        # polars only implements `clip` for numeric types
+        return pl.when(x < lower).then(lower).when(x > upper).then(upper).otherwise(x)
 
     @impl(ops.rand)
     def _rand():
